@@ -195,6 +195,34 @@ def _drive_chunk(cases):
     return drive(cases)
 
 
+def big_batches(seed):
+    dreye = import_dreye()
+    rng = np.random.default_rng(seed)
+    bad = []
+    nd = 101
+    F = rng.integers(0, 6, (5, nd)).astype(float)
+    S = rng.integers(0, 6, (2200, nd)).astype(float)       # 2200 x 5 x 101 > 2^20 element products
+    S[:, 0] = rng.integers(1, 6, 2200)                       # non-zero at both domain ends
+    S[:, -1] = rng.integers(1, 6, 2200)
+    domains = [("dx-trapz", dict(domain=2.0, trapz=True)), ("dx-rect", dict(domain=2.0, trapz=False)),
+               ("dx-rect-1", dict(domain=1.0, trapz=False)), ("array-domain", dict(domain=np.cumsum(rng.integers(1, 4, nd)).astype(float)))]
+    pick = rng.choice(2200, 12, replace=False)
+    for name, kw in domains:
+        for FF, fname in ((F, "2-D filters"), (np.stack([F, F[::-1]]), "batched filters")):
+            w = dict(kind=name, filters=fname, n_signals=2200)
+            try:
+                big = np.asarray(dreye.calculate_capture(FF, S, **kw), float)
+                for i in pick:
+                    small = np.asarray(dreye.calculate_capture(FF, S[i:i + 1], **kw), float)
+                    row = big[..., i:i + 1, :]
+                    if row.shape != small.shape or not np.array_equal(row, small):
+                        bad.append(("C01.pairwise-independence", w, small.tolist(), row.tolist() if row.shape == small.shape else list(row.shape)))
+                        break
+            except Exception as ex:
+                bad.append(("C01.no-error", dict(exc=type(ex).__name__, **w), None, repr(ex)[:200]))
+    return bad
+
+
 def run(ctx):
     thorough = ctx.tier == "thorough"
     # (1) model checking + (A) spec -> code
@@ -224,6 +252,13 @@ def run(ctx):
     for c in cases[:: max(1, len(cases) // 3)][:3]:
         ctx.sample(dict(kind="spec->code", **c))
     ctx.counts.update(classes)
+    # (A') pairwise independence at scale: thousands of signals in one call (above any size threshold a fast path might
+    # have): every entry must equal the entry of the small call for that (signal, filter) pair alone, which (A) has
+    # compared with the specification.  Integer-valued arrays: all sums are exact.
+    for clause, where, exp, obs in big_batches(ctx.seed):
+        ctx.violation(clause, where, dict(big_batch=True), exp, obs)
+    ctx.count("big-batch configurations", 8)
+    ctx.evaluations += 8
     # (B) code -> spec
     n = 6000 if thorough else 1500
     rcases = [_rand_case(rng, i) for i in range(n)]
